@@ -37,6 +37,11 @@ def corpus():
     return out
 
 
+def ty32(g, lit32):
+    """%1 = OpTypeInt 32 1"""
+    return instgen.Inst(g.opv["TypeInt"], "TypeInt", None, 1, [instgen.Op("w", lit32, 32), instgen.Op("w", lit32, 1)]).words()
+
+
 def hostile_requests(TG, rnd, tier, channels=("dismain", "parse", "loadasm")):
     """well-formed seeded modules and every systematic way of breaking them"""
     g = instgen.Gen(TG, rnd)
@@ -100,6 +105,22 @@ def hostile_requests(TG, rnd, tier, channels=("dismain", "parse", "loadasm")):
             w += [(5 << 16) | g.opv["Constant"], 1, 3, 7, 8]
             for ch in channels:
                 reqs.append(f"{ch} {instgen.to_bytes(w).hex()}")
+    # the disassembler tracks numeric types over the whole section, the parser only those seen so far: a constant *before* its
+    # type, and a type id declared twice with different widths / signedness / kind (the later declaration wins when printing)
+    norder = 0
+    for w1 in (8, 16, 24, 32, 64, 128, 0):
+        for signed in (0, 1):
+            for tyop in ("TypeInt", "TypeFloat"):
+                ty = instgen.Inst(g.opv[tyop], tyop, None, 1, [instgen.Op("w", lit32, w1)] + ([instgen.Op("w", lit32, signed)] if tyop == "TypeInt" else [])).words()
+                c1 = [(4 << 16) | g.opv["Constant"], 1, 2, 0xfffffff9]
+                for layout in ([c1, ty], [ty32(g, lit32), c1, ty], [c1, ty, c1[:2] + [3, 0x3fc00000]]):
+                    w = instgen.header(bound=10)
+                    for part in layout:
+                        w += part
+                    for ch in channels:
+                        reqs.append(f"{ch} {instgen.to_bytes(w).hex()}")
+                    norder += 1
+    stats["constant before / between type declarations"] = norder
     for _ in range(40 if tier == "quick" else 2000):
         n = rnd.choice([0, 1, 3, 4, 19, 20, 21, 24, 64, rnd.randrange(0, 200)])
         data = bytes(rnd.randrange(256) for _ in range(n))
@@ -107,6 +128,14 @@ def hostile_requests(TG, rnd, tier, channels=("dismain", "parse", "loadasm")):
             data = bytes.fromhex("03022307") + data[4:]
         reqs.append(f"{rnd.choice(channels)} {data.hex() or '-'}")
     stats["random"] = 40 if tier == "quick" else 2000
+    # "for every word slice": whole-word inputs also go through `binary::parse_words` / `dr::load_words`
+    twins = []
+    for k, r in enumerate(reqs):
+        ch, hx = r.split(" ", 1)
+        if ch in ("parse", "loadasm") and (hx == "-" or len(hx) % 8 == 0) and k % (3 if tier == "quick" else 1) == 0:
+            twins.append(("parsew " if ch == "parse" else "loadasmw ") + hx)
+    stats["word-slice entry points"] = len(twins)
+    reqs += twins
     return reqs, stats
 
 
